@@ -10,6 +10,7 @@
 package main
 
 import (
+	"anndbverif/lib/hang"
 	"context"
 	"encoding/json"
 	"fmt"
@@ -38,6 +39,9 @@ var queries = [][]float32{{1.3, 0.9}, {2.6, 2.2}, {0.7, 3.1}, {4.4, 1.7}}
 // stored points as well. Queries whose exact ranking has ties are checked for completeness instead of order.
 var parallelGrid = [][]float32{{1, 1}, {2, 2}, {3, 1}, {6, 2}, {1, 3}, {0.5, 1.5}, {7, 7}, {3, 9}}
 var parallelQueries = [][]float32{{3, 3}, {1.5, 0.5}, {2.6, 2.2}, {0.7, 3.1}}
+
+// hangCPU: a case takes microseconds; one that has burnt this much CPU time is in a loop (see lib/hang)
+const hangCPU = 60 * time.Second
 
 type cfg struct {
 	Space     string
@@ -346,7 +350,11 @@ func main() {
 			return
 		}
 		vrt.InactiveMapPolicy = f.Replay.Cfg.Policy
-		if k, d := check(f.Replay); k != "" {
+		var k, d string
+		if !hang.Run(hangCPU, func() { k, d = check(f.Replay) }) {
+			k, d = "call-does-not-return", fmt.Sprintf("building the index and searching it has not finished after %v of CPU time", hangCPU)
+		}
+		if k != "" {
 			fmt.Printf("VIOLATION property=%s replay=%s\n  %s: %s\n", ev.As("C07"), os.Args[2], k, d)
 			os.Exit(1)
 		}
@@ -388,7 +396,18 @@ func main() {
 						return false
 					}
 					res.Cases++
-					if k, d := check(cs); k != "" && !seenKey[k] {
+					var k, d string
+					if !hang.Run(hangCPU, func() { k, d = check(cs) }) {
+						// the leaked goroutine still works on the index: report and leave
+						res.Complete = false
+						res.Violations = append(res.Violations, struct {
+							Key, Desc string
+							Case      caseT
+						}{"call-does-not-return", fmt.Sprintf("building the index and searching it has not finished after %v of CPU time", hangCPU), cs})
+						shard.Emit(res)
+						os.Exit(0)
+					}
+					if k != "" && !seenKey[k] {
 						seenKey[k] = true
 						res.Violations = append(res.Violations, struct {
 							Key, Desc string
@@ -408,7 +427,12 @@ func main() {
 	big := bigCases()
 	for _, bc := range big {
 		vrt.InactiveMapPolicy = 0
-		if k, d := checkBig(bc); k != "" {
+		var k, d string
+		if !hang.Run(hangCPU, func() { k, d = checkBig(bc) }) {
+			run.Violation("call-does-not-return:boundary-size", fmt.Sprintf("%+v has not finished after %v of CPU time", bc, hangCPU), map[string]interface{}{"big": bc})
+			break
+		}
+		if k != "" {
 			run.Violation(k, d, map[string]interface{}{"big": bc})
 		}
 	}
